@@ -2,6 +2,7 @@ package sim
 
 import (
 	"bufio"
+	"encoding/base64"
 	"encoding/json"
 	"flag"
 	"fmt"
@@ -379,6 +380,17 @@ func replayMain(t *testing.T) {
 	}
 	if rf.Mode != "" {
 		*flagMode = rf.Mode
+	}
+	if g, ok := rf.Inputs["xblob_gob"]; ok {
+		dir, err := os.MkdirTemp("", "xreplay-")
+		if err != nil {
+			t.Fatal(err)
+		}
+		defer os.RemoveAll(dir)
+		raw, _ := base64.StdEncoding.DecodeString(g)
+		os.WriteFile(dir+"/x-replay.gob", raw, 0o644)
+		*flagXDir = dir
+		rf.Property = "C11X"
 	}
 	res := execute(t, rf.Property, rf.Tier, NewReplay(rf.Tape))
 	if res.Harness != "" {
